@@ -7,25 +7,29 @@ Import ListNotations.
 Section Model.
 Variable F1 : nat -> Z -> Z.            (* interpretation of unary user functions  *)
 Variable F2 : nat -> Z -> Z -> Z.       (* interpretation of binary user functions *)
+Variable F3 : nat -> Z -> Z -> Z -> Z.  (* interpretation of ternary user functions *)
 Variable order : nat -> list (nat * nat). (* subscribers of p.valueChanged in delivery order: (bound property, leaf lid) *)
 
 Inductive tree :=
 | Const (z : Z)
 | Leaf (p lid : nat) (d : bool)
 | Un (f : nat) (d : bool) (c : Z) (k : tree)
-| Bin (f : nat) (d : bool) (c : Z) (k1 k2 : tree).
+| Bin (f : nat) (d : bool) (c : Z) (k1 k2 : tree)
+| Tern (f : nat) (d : bool) (c : Z) (k1 k2 k3 : tree).
 
 Fixpoint den (env : nat -> Z) (t : tree) : Z :=
   match t with
   | Const z => z | Leaf p _ _ => env p
   | Un f _ _ k => F1 f (den env k)
   | Bin f _ _ k1 k2 => F2 f (den env k1) (den env k2)
+  | Tern f _ _ k1 k2 k3 => F3 f (den env k1) (den env k2) (den env k3)
   end.
 
 Fixpoint leaves (t : tree) : list (nat * nat) :=
   match t with
   | Const _ => [] | Leaf p lid _ => [(p, lid)]
   | Un _ _ _ k => leaves k | Bin _ _ _ k1 k2 => leaves k1 ++ leaves k2
+  | Tern _ _ _ k1 k2 k3 => leaves k1 ++ leaves k2 ++ leaves k3
   end.
 
 Fixpoint clean (t : tree) : Prop :=
@@ -33,11 +37,12 @@ Fixpoint clean (t : tree) : Prop :=
   | Const _ => True | Leaf _ _ d => d = false
   | Un _ d _ k => d = false /\ clean k
   | Bin _ d _ k1 k2 => d = false /\ clean k1 /\ clean k2
+  | Tern _ d _ k1 k2 k3 => d = false /\ clean k1 /\ clean k2 /\ clean k3
   end.
 
 (* value a clean node hands to its parent *)
 Definition val (env : nat -> Z) (t : tree) : Z :=
-  match t with Const z => z | Leaf p _ _ => env p | Un _ _ c _ => c | Bin _ _ c _ _ => c end.
+  match t with Const z => z | Leaf p _ _ => env p | Un _ _ c _ => c | Bin _ _ c _ _ => c | Tern _ _ c _ _ _ => c end.
 
 (* Dirtyable::markDirty started at leaf [lid]: new tree, and whether the walk continues to the parent *)
 Fixpoint mark (t : tree) (lid : nat) : tree * bool :=
@@ -52,6 +57,12 @@ Fixpoint mark (t : tree) (lid : nat) : tree * bool :=
       let '(k2', up2) := mark k2 lid in
       if up1 || up2 then (if d then (Bin f d c k1' k2', false) else (Bin f true c k1' k2', true))
       else (Bin f d c k1' k2', false)
+  | Tern f d c k1 k2 k3 =>
+      let '(k1', up1) := mark k1 lid in
+      let '(k2', up2) := mark k2 lid in
+      let '(k3', up3) := mark k3 lid in
+      if up1 || up2 || up3 then (if d then (Tern f d c k1' k2' k3', false) else (Tern f true c k1' k2' k3', true))
+      else (Tern f d c k1' k2' k3', false)
   end.
 
 (* NodeInterface::evaluate *)
@@ -65,6 +76,10 @@ Fixpoint eval (env : nat -> Z) (t : tree) : tree * Z :=
       if d then let '(k1', v1) := eval env k1 in let '(k2', v2) := eval env k2 in
                 (Bin f false (F2 f v1 v2) k1' k2', F2 f v1 v2)
       else (t, c)
+  | Tern f d c k1 k2 k3 =>
+      if d then let '(k1', v1) := eval env k1 in let '(k2', v2) := eval env k2 in let '(k3', v3) := eval env k3 in
+                (Tern f false (F3 f v1 v2 v3) k1' k2' k3', F3 f v1 v2 v3)
+      else (t, c)
   end.
 
 Definition nopend (P : list (nat * nat)) (q : nat) (t : tree) : Prop :=
@@ -76,6 +91,7 @@ Fixpoint consis (env : nat -> Z) (P : list (nat * nat)) (q : nat) (t : tree) : P
   | Const _ | Leaf _ _ _ => True
   | Un f _ c k => consis env P q k /\ (nopend P q t -> c = den env t)
   | Bin f _ c k1 k2 => consis env P q k1 /\ consis env P q k2 /\ (nopend P q t -> c = den env t)
+  | Tern f _ c k1 k2 k3 => consis env P q k1 /\ consis env P q k2 /\ consis env P q k3 /\ (nopend P q t -> c = den env t)
   end.
 
 Record state := { env : nat -> Z; tr : nat -> option tree; oof : bool }.
